@@ -329,6 +329,20 @@ impl<'source> PeekableLexer<'source> {
             r is Err ==> final(self).not_moved(old(self)),
 //@end
 
+//@fn rel=crates/isograph_lang_parser/src/peekable_lexer.rs name=parse_string_key_type within="impl<'source> PeekableLexer<'source>" vis=pub ret=r serves=C07
+//@rw R6b R15 R16 R4
+//@sub "self\.source\(kind\.location\.span\)\.intern\(\)" => "intern_str(self.source(kind.location.span))" n=1
+//@contract
+        requires old(self).inv(),
+        ensures
+            final(self).inv(), //@O C07.O-1_parse_string_key_type_preserves_cursor_invariant
+            final(self).same_literal(old(self)), final(self).monotone(old(self)),
+            (r is Ok) == (old(self).current.item == expected_kind),
+            r is Ok ==> final(self).progressed(old(self)) && r->Ok_0.location.span == old(self).current.span
+                && r->Ok_0.location.span.end <= byte_len(old(self).source), //@O C07.O-1_string_key_span_inside_literal
+            r is Err ==> final(self).not_moved(old(self)),
+//@end
+
 //@fn rel=crates/isograph_lang_parser/src/peekable_lexer.rs name=with_embedded_location_result within="impl<'source> PeekableLexer<'source>" vis=pub ret=r serves=C07
 //@rw R4 R6b
 //@hsub "do_stuff: impl FnOnce\(&mut Self\) -> Result<T, E>," => "do_stuff: F,"
@@ -405,6 +419,19 @@ impl<'source> PeekableLexer<'source> {
 
 // ---- stand-ins for the parser's payload (opaque: the cursor contracts do not depend on them) ----
 impl Location { pub fn from(e: EmbeddedLocation) -> (r: Location) ensures r.embedded == e { Location { embedded: e } } }
+/// intern::string_key::StringKey and `str.intern()` (opaque: the cursor does not depend on them)
+#[derive(Clone, Copy)]
+pub struct StringKey(pub u32);
+#[verifier::external_body]
+pub fn intern_str(s: &str) -> StringKey { unimplemented!() }
+/// string-key newtypes of common_lang_types / isograph_lang_types (string_key_newtype! macro):
+/// opaque, built `From<StringKey>`
+#[derive(Clone, Copy)] pub struct FieldArgumentName(pub StringKey);
+impl From<StringKey> for FieldArgumentName { #[verifier::external_body] fn from(k: StringKey) -> Self { FieldArgumentName(k) } }
+#[derive(Clone, Copy)] pub struct ValueKeyName(pub StringKey);
+impl From<StringKey> for ValueKeyName { #[verifier::external_body] fn from(k: StringKey) -> Self { ValueKeyName(k) } }
+#[derive(Clone, Copy)] pub struct IsographDirectiveName(pub StringKey);
+impl From<StringKey> for IsographDirectiveName { #[verifier::external_body] fn from(k: StringKey) -> Self { IsographDirectiveName(k) } }
 /// `s.contains(c)` for a char pattern
 #[verifier::external_body]
 pub fn str_contains_char(s: &str, c: char) -> bool { unimplemented!() }
@@ -516,6 +543,91 @@ pub fn parse_selection(tokens: &mut PeekableLexer<'_>) -> (r: DiagnosticResult<W
                 cr is Ok && cr->Ok_0 is Some ==> final(tokens).progressed(old(tokens)),
                 cr is Ok && cr->Ok_0 is None ==> final(tokens).current.span.start == old(tokens).current.span.start,
 //@closure 2 params="selections: Vec<WithEmbeddedLocation<Selection>>" ret="ss: SelectionSet"
+//@end
+
+//@fn rel=crates/isograph_lang_parser/src/parse_iso_literal.rs name=parse_optional_alias_and_field_name vis=pub ret=r serves=C07
+//@rw R4
+//@hsub "tokens: &mut PeekableLexer," => "tokens: &mut PeekableLexer<'_>,"
+//@contract
+    requires old(tokens).inv(),
+    ensures
+        final(tokens).inv(), //@O C07.O-5_parse_alias_and_field_name_preserves_cursor_invariant
+        final(tokens).same_literal(old(tokens)), final(tokens).monotone(old(tokens)),
+        r is Ok ==> final(tokens).progressed(old(tokens)),
+//@end
+
+/// parse_non_constant_value: its alternatives are closures capturing `tokens` mutably (outside
+/// Verus); contract assumed for the composition, the alternatives' blocks are checked below
+#[verifier::external_body]
+pub fn parse_non_constant_value(tokens: &mut PeekableLexer<'_>) -> (r: DiagnosticResult<WithEmbeddedLocation<NonConstantValue>>)
+    requires old(tokens).inv(),
+    ensures final(tokens).inv(), final(tokens).same_literal(old(tokens)), final(tokens).monotone(old(tokens)),
+        r is Ok ==> final(tokens).progressed(old(tokens)),
+{ unimplemented!() }
+
+//@item rel=crates/isograph_lang_types/src/declarations/selection_argument.rs kind=struct name=SelectionFieldArgument prefix="pub"
+//@fn rel=crates/isograph_lang_parser/src/parse_iso_literal.rs name=parse_argument vis=pub ret=r serves=C07
+//@rw R4
+//@contract
+    requires old(tokens).inv(),
+    ensures
+        final(tokens).inv(), //@O C07.O-5_parse_argument_preserves_cursor_invariant
+        final(tokens).same_literal(old(tokens)), final(tokens).monotone(old(tokens)),
+        r is Ok ==> final(tokens).progressed(old(tokens)) && located_from(r->Ok_0, old(tokens)), //@O C07.O-5_argument_span_well_formed
+//@closure 1 params="tokens: &mut PeekableLexer<'_>" ret="cr: Result<SelectionFieldArgument, Diagnostic>"
+            requires old(tokens).inv(),
+            ensures final(tokens).inv(), final(tokens).same_literal(old(tokens)), final(tokens).monotone(old(tokens)),
+                cr is Ok ==> final(tokens).progressed(old(tokens)),
+//@end
+
+//@fn rel=crates/isograph_lang_parser/src/parse_iso_literal.rs name=parse_optional_arguments vis=pub ret=r serves=C07
+//@rw R4
+//@hsub "tokens: &mut PeekableLexer," => "tokens: &mut PeekableLexer<'_>,"
+//@sub "Ok\(vec!\[\]\)" => "Ok(Vec::new())" n=1
+//@contract
+    requires old(tokens).inv(),
+    ensures
+        final(tokens).inv(), //@O C07.O-5_parse_optional_arguments_preserves_cursor_invariant
+        final(tokens).same_literal(old(tokens)), final(tokens).monotone(old(tokens)),
+//@end
+
+//@item rel=crates/graphql_lang_types/src/value.rs kind=struct name=NameValuePairInner prefix="pub"
+pub type NameValuePair<TName, TValue> = NameValuePairInner<TName, TValue, EmbeddedLocation>;
+//@fn rel=crates/isograph_lang_parser/src/parse_iso_literal.rs name=parse_object_entry vis=pub ret=r serves=C07
+//@rw R4
+//@hsub "tokens: &mut PeekableLexer," => "tokens: &mut PeekableLexer<'_>,"
+//@contract
+    requires old(tokens).inv(),
+    ensures
+        final(tokens).inv(), //@O C07.O-5_parse_object_entry_preserves_cursor_invariant
+        final(tokens).same_literal(old(tokens)), final(tokens).monotone(old(tokens)),
+        r is Ok ==> final(tokens).progressed(old(tokens)),
+//@end
+
+//@item rel=crates/isograph_lang_types/src/isograph_directives.rs kind=struct name=IsographFieldDirective prefix="pub"
+//@fn rel=crates/isograph_lang_parser/src/parse_iso_literal.rs name=parse_directives vis=pub ret=r serves=C07 prefix="#[verifier::exec_allows_no_decreases_clause]"
+//@rw R16 R4
+//@hsub "tokens: &mut PeekableLexer," => "tokens: &mut PeekableLexer<'_>,"
+//@sub "let mut directives = vec!\[\];" => "let mut directives: Vec<WithEmbeddedLocation<IsographFieldDirective>> = Vec::new();" n=1
+//@contract
+    requires old(tokens).inv(),
+    ensures
+        final(tokens).inv(), //@O C07.O-5_parse_directives_preserves_cursor_invariant
+        final(tokens).same_literal(old(tokens)), final(tokens).monotone(old(tokens)),
+        r is Ok ==> r->Ok_0.location.span.start <= r->Ok_0.location.span.end
+            && r->Ok_0.location.span.end <= byte_len(old(tokens).source), //@O C07.O-5_directives_span_well_formed
+//@closure 1 params="tokens: &mut PeekableLexer<'_>" ret="cr: Result<Option<Vec<WithEmbeddedLocation<IsographFieldDirective>>>, Diagnostic>"
+            requires old(tokens).inv(),
+            ensures final(tokens).inv(), final(tokens).same_literal(old(tokens)), final(tokens).monotone(old(tokens)),
+                cr is Ok && cr->Ok_0 is Some ==> final(tokens).progressed(old(tokens)),
+                cr is Ok && cr->Ok_0 is None ==> final(tokens).current.span.start == old(tokens).current.span.start,
+//@loop 1
+                invariant
+                    tokens.inv(), tokens.same_literal(old(tokens)), tokens.monotone(old(tokens)),
+                    directives@.len() > 0 ==> tokens.progressed(old(tokens)),
+                    directives@.len() == 0 ==> tokens.current.span.start == old(tokens).current.span.start,
+//@closure 2 params="" ret="d: WithEmbeddedLocation<Vec<WithEmbeddedLocation<IsographFieldDirective>>>"
+            ensures d.location.span.start == 0 && d.location.span.end == 0,
 //@end
 
 // ---- string / block-string callbacks of the logos lexer (token_kind.rs) ---------------
